@@ -35,16 +35,17 @@ META = {
     "coordinates restricted to that upstream's axes (C03_routing, mixed radix, by induction); for a node whose upstream final "
     "states have pairwise disjoint duplicate-free axes, each connected through one field, the model's inputs_ind entry equals "
     "the index the nested-loop reference reads (C03_fanin_disjoint, C03_chain); _add_state_history is the identity when no "
-    "connected state's history meets a connected root (C03_history_noop).  Kernel-evaluated witnesses show the model of the "
+    "connected state's history meets a connected root (C03_history_noop); with duplicate-free keys the code's group selection "
+    "by dictionary inclusion equals the reference's selection by coordinate restriction (C03_group_test).  Kernel-evaluated witnesses show the model of the "
     "code differs from the reference on the diamond (|A|² jobs, D2) and on six further shapes, so C03_full_statement is "
     "stated and refuted for the model, not claimed.  NOT proved: that Model.run = Spec.run for every workflow of the class — "
     "the composition of the bookkeeping passes with the node step is TESTED: every generated workflow (≤ 5 nodes; chain, fan-in, "
-    "fan-out, triangle, diamond, random DAG; outer/inner splits over 1–2 of 3 fields, lists of length 1–3, combiners over own "
-    "and inherited axes) is executed by pydra (debug worker), by the Lean spec interpreter and by the Lean model; outputs and "
-    "per-node job counts are compared three ways.",
+    "fan-out, triangle, diamond, random DAG, nodes optionally nested workflows; outer/inner splits over 1–2 of 3 fields, lists of length 1–3, combiners over own "
+    "and inherited axes) is executed by pydra (debug worker), by the Lean spec interpreter and by the Lean model; workflow outputs, "
+    "per-node job counts and per-node job inputs (read from the cache root) are compared three ways.",
     "note": "Trusted: Lean kernel; hand-written Lean model of State/_create_graph/NodeExecution/LazyOutField (tied to the code "
     "only by differential execution); generator reach (one task type whose output encodes its inputs; no splits over "
-    "upstream outputs, no nested workflows, no explicit `_U` references in splitters).  Inside the class every disagreement is "
+    "upstream outputs, nested workflows only as two-node encoders, no explicit `_U` references in splitters).  Inside the class every disagreement is "
     "a violation; outside it (shared origins etc.) agreement is reported as testing only.",
     "rule": "case = workflow graph (nodes with sources, own split, combiner; outputs); distinct by canonical JSON; "
     "non-trivial = at least one node has a stateful upstream (state actually propagates)",
@@ -65,6 +66,7 @@ OBLIGATIONS = [
         "C03_fanin_disjoint",
         "C03_chain",
         "C03_history_noop",
+        "C03_group_test",
         "C03_witness_diamond",
         "C03_triangle_agrees",
         "C03_witness_descendant",
@@ -177,29 +179,37 @@ def kind_of(obs: dict, spec: dict) -> str:
 
 
 def attribute(fl: dict, kind: str) -> str | None:
-    """Match rules of the known findings: (class flags of the case, failure mode) -> finding id.
-    Nothing inside the class is ever attributed."""
+    """Match rules of the known findings: (class flags of the case, failure mode predicted by the Lean model) -> finding id.
+    Nothing inside the class is ever attributed; outside the class every failure mode is mapped (the attribution only
+    counts when the model predicts the implementation's behaviour exactly, see `run_cases`)."""
     if fl["inClass"] or kind == "ok":
         return None
-    if fl["partialZipFeeds"] and kind in ("AttributeError", "PydraStateError"):
+    errors = ("AttributeError", "PydraStateError", "TypeError", "KeyError", "IndexError", "ValueError", "AssertionError")
+    if fl["partialZipFeeds"] and kind in ("AttributeError", "PydraStateError", "TypeError"):
+        # depth() says "no state", splitter_rpn_final says "state": no setter / missing attribute, or — when the
+        # re-applied update_connections adds the upstream to an existing list — the nested-list TypeError
         return "D29"
     if fl["combAllPrev"] and kind == "ValueError":
         return "D33"
     if fl["shared"]:
-        if kind == "TypeError" and (fl["mergesInto"] or fl["dropsRoot"]):
+        if kind == "TypeError":
             return "D30"
-        if kind in ("KeyError", "IndexError", "PydraStateError", "ValueError") and fl["sharedComb"]:
-            return "D35"
+        if kind == "ValueError" and fl["dropsRoot"] and not fl["sharedComb"]:
+            return "D31"  # two own-splitter descendants of one connected root: the root is removed twice (list.remove)
+        if kind in errors:
+            return "D35" if fl["sharedComb"] else ("D31" if fl["dropsRoot"] else "D30")
         if kind == "morejobs":
             return "D2"
-        if kind == "wrongvals" and fl["dropsRoot"]:
-            return "D31"
-        if kind == "wrongvals" and fl["sharedComb"]:
-            return "D35"
+        if kind == "wrongvals":
+            return "D31" if fl["dropsRoot"] else ("D35" if fl["sharedComb"] else "D2")
     if fl["laterMulti"] and kind in ("wrongvals", "morejobs"):
         return "D34"
-    if fl["partialZipFeeds"] and kind in ("morejobs", "wrongvals"):
+    if fl["partialZipFeeds"]:
         return "D29"
+    if fl["combAllPrev"]:
+        return "D33"
+    if fl["laterMulti"]:
+        return "D34"
     return None
 
 
@@ -318,6 +328,8 @@ def _gen_case(rng, p_comb: float) -> dict:
                 for f in split[1:] if len(split) == 3 else split:
                     ins[f]["w"] = 1
         nd = {"name": name, "in": ins, "split": split, "combine": []}
+        if rng.random() < 0.12:
+            nd["wf"] = True  # the node is a nested workflow (two encoder nodes inside)
         nodes.append(nd)
         # combiner over the axes the reference gives this node
         info = analyse({"nodes": nodes})
@@ -455,6 +467,20 @@ def _strip(case):
     return {"nodes": case["nodes"], "out": case["out"]}
 
 
+def _norm(obs, case):
+    """Lean answers carry every job's *output* (`jobouts`); the implementation is observed through the jobs' *inputs* read
+    from the cache root: strip the tag (and the wrapper of a nested-workflow node) and sort, as the engine does."""
+    if not isinstance(obs, dict) or "jobouts" not in obs:
+        return obs
+    nested = {nd["name"] for nd in case["nodes"] if nd.get("wf")}
+    ins = {}
+    for name, outs in obs["jobouts"].items():
+        ins[name] = sorted(json.dumps((o[1] if name in nested else o)[1:], sort_keys=True) for o in outs)
+    r = {k: v for k, v in obs.items() if k != "jobouts"}
+    r["jobins"] = ins
+    return r
+
+
 def run_cases(ctx, cases, label="generated"):
     cases = [c for c in cases]
     impls = []
@@ -470,8 +496,8 @@ def run_cases(ctx, cases, label="generated"):
         if a is not None and ("error" in a and "spec" not in a):
             ctx.tie_broken.append({"kind": "driver-rejected-case", "case": c, "detail": a})
             continue
-        spec = a["spec"] if a else None
-        model = a["model"] if a else None
+        spec = _norm(a["spec"], c) if a else None
+        model = _norm(a["model"], c) if a else None
         if a is not None:
             lean_fl = {k2: a["cls"].get(k2) for k2 in fl}
             if lean_fl != fl:
@@ -490,6 +516,8 @@ def run_cases(ctx, cases, label="generated"):
         ups = any(analyse(c)["infos"][nd["name"]]["ups"] for nd in c["nodes"])
         ctx.count(f"shape:{c.get('shape', label)}")
         ctx.count(f"nodes={len(c['nodes'])}")
+        if any(nd.get("wf") for nd in c["nodes"]):
+            ctx.count("has-nested-workflow-node")
         ctx.count("class:in" if fl["inClass"] else "class:outside")
         ctx.count(f"impl:{kind}")
         if not fl["inClass"]:
@@ -544,8 +572,8 @@ def correspondence(ctx):
     findings = load_corpus("findings.jsonl")
     cases = [dict(r["case"], shape="corpus", corpus_id=r["id"]) for r in findings]
     cases += [dict(r["case"], shape="corpus", corpus_id=r["id"]) for r in load_corpus("regressions.jsonl")]
-    n = ctx.pick(170, 3600)
-    cases += [gen_case(ctx.rng, max_jobs=ctx.pick(40, 90)) for _ in range(n)]
+    n = ctx.pick(130, 2000)
+    cases += [gen_case(ctx.rng, max_jobs=ctx.pick(32, 90)) for _ in range(n)]
     res = run_cases(ctx, cases)
     by_id = {c.get("corpus_id"): (c, i, spec, model) for c, i, spec, model, _ in res if c.get("corpus_id")}
     for rec in findings:
@@ -577,9 +605,10 @@ def _minimise(ctx):
             if "spec" not in a:
                 return False
             fl = flags(c)
-            m = a["model"] if "unmodelled" not in a["model"] else None
-            bad = r != a["spec"]
-            explained = bad and (m is None or m == r) and attribute(fl, kind_of(m if m is not None else r, a["spec"])) is not None
+            sp = _norm(a["spec"], c)
+            m = _norm(a["model"], c) if "unmodelled" not in a["model"] else None
+            bad = r != sp
+            explained = bad and (m is None or m == r) and attribute(fl, kind_of(m if m is not None else r, sp)) is not None
             return bad and not explained
 
         try:
